@@ -553,8 +553,21 @@ func ruleKeyFrame(p *Prog, r *Result) {
 				n++
 				framed := false
 				for _, cv := range contrib {
-					if isFraming(cv) {
+					if isFraming(cv, ph) {
 						framed = true
+					}
+				}
+				// a length prefix must be the component's length: len(key so far) is an offset and frames nothing
+				for _, cv := range contrib {
+					if mentions(cv, func(v ssa.Value) bool {
+						c, ok := v.(*ssa.Call)
+						if !ok {
+							return false
+						}
+						b, ok := c.Call.Value.(*ssa.Builtin)
+						return ok && b.Name() == "len" && derivesFrom(c.Call.Args[0], func(z ssa.Value) bool { return z == ssa.Value(ph) })
+					}, 8) {
+						framed = false
 					}
 				}
 				r.add(framed, p.FName(fn)+"|group-key", p.InstrPos(ph), "group key components must be framed (delimiter or length), not bare-concatenated: ('a','bc') and ('ab','c') would share a group")
@@ -565,7 +578,7 @@ func ruleKeyFrame(p *Prog, r *Result) {
 }
 
 // isFraming: the appended operand carries a constant delimiter or a length encoding.
-func isFraming(v ssa.Value) bool {
+func isFraming(v ssa.Value, acc ssa.Value) bool {
 	found := false
 	seen := map[ssa.Value]bool{}
 	var rec func(x ssa.Value, d int)
@@ -586,6 +599,10 @@ func isFraming(v ssa.Value) bool {
 			}
 		case *ssa.Call:
 			if b, ok := y.Call.Value.(*ssa.Builtin); ok && b.Name() == "len" {
+				// the length of the component, not of the key built so far (len(acc) is an offset: not injective)
+				if acc != nil && derivesFrom(y.Call.Args[0], func(z ssa.Value) bool { return z == acc }) {
+					return
+				}
 				found = true
 				return
 			}
